@@ -26,23 +26,23 @@ replaced by their statement-level transcriptions (table in the header of the mod
   - fast lane: on every record the number of parts fits (`PartsFit`: fewer than 2³¹ − 1 delimiter
     bytes in the record, or the scan stops early at a positive `i32` `last_interesting_field`);
   - `-M`, `-l`, the general engine: nothing more than `InDomain`.
-  Both are forced by ONE component hypothesis, `parts_length < 2³¹` of `BoundsLit.tryIntoRange_eq`
-  (the cast `parts_length as i32`, userbounds.rs:221), now that `cut_bytes` (cut_bytes.rs:15) and
-  `output_parts` (fast_lane.rs:103) call the machine-integer `try_into_range`; the general engine had
-  it already (`FieldsFit`).  They CANNOT be dropped (§8):
-  - **`tucProgramLit2_ne_tucMain_on_2GiB_input`** / `tucProgramLit2_bytes_length_necessary` /
-    `readAndCutBytesLoop2_length_necessary`: `tuc -b 1:` on an input of `2³¹ ≤ len mod 2³²` bytes (one
-    read; `WholeLit.InDomain` holds): the program made of the Rust statements ends with exit status 1
-    ("Out of bounds: 1") and prints NOTHING, `tucProgramLit` and `tucMain` print the input.
-    **REACHABLE** — any file of 2 GiB to 4 GiB; from 4 GiB on only `len mod 2³²` counts
-    (`BoundsLit.tryIntoRange_mod`): `tuc -b 1:` on 4 GiB + k bytes silently prints the first k bytes.
-    GENUINE DEFECT of the Rust code (`read_and_cut_bytes` holds the whole input in one `Vec`, so the
-    input sizes in question are legitimate on a 64-bit machine); the same truncation as the one
-    `Tuc.Props.BoundsLit` / `CutStrLit` report for 2³¹ fields in one record, but here the count is BYTES
-    OF INPUT, not fields of one line.
-  - `outputPartsLit2_length_necessary`: one call of `output_parts` with `2³¹ + 1` entries in `fields`
-    (a record with 2³¹ − 1 delimiters; the `i32` counter `curr_field` still fits, `CounterFits` holds)
-    returns `Err` where `Tuc.Model.FastLoop` does not.  Reachable with a 2 GiB record.
+  Both came from ONE component hypothesis, `parts_length < 2³¹` of `BoundsLit.tryIntoRange_eq` (the cast
+  `parts_length as i32`, userbounds.rs:221), when `cut_bytes` (cut_bytes.rs:15) and `output_parts`
+  (fast_lane.rs:103) were made to call the machine-integer `try_into_range`.  That cast was a GENUINE
+  DEFECT (`tuc -b 1:` on 2 GiB to 4 GiB of input: exit 1, "Out of bounds: 1", nothing printed; beyond 4 GiB
+  only `len mod 2³²` counted) and HAS BEEN REPAIRED: `try_into_range` computes in `i64`
+  (`BoundsLit.tryIntoRange_eq_i64`, every `parts_length < 2⁶³`).  `InDomain2` is unchanged and its clauses
+  stay SUFFICIENT, but (§8):
+  - the `-b` clause is NO LONGER NECESSARY: `readAndCutBytesLoop2_eq_i64` (every option record, every
+    input shorter than 2⁶³ bytes), **`tucProgramLit2_eq_tucMain_on_2GiB_input`** / `tucProgramLit2_bytes_on_large`
+    / `readAndCutBytesLoop2_on_large`: `tuc -b 1:` on the 2³¹-byte input that witnessed the defect now
+    prints the input, as `tucProgramLit` and `tucMain` do.  (The former witnesses
+    `tucProgramLit2_ne_tucMain_on_2GiB_input`, `tucProgramLit2_bytes_length_necessary`,
+    `readAndCutBytesLoop2_length_necessary` are false of the repaired text; the commit history has them.)
+  - fast lane: `outputPartsLit2_eq_i64` / `outputPartsLit2_eq_on_large` — `output_parts` agrees with
+    `Tuc.Model.FastLoop` for every number of parts below 2⁶³ (the former `outputPartsLit2_length_necessary`
+    is false now).  `PartsFit` remains in `inputFits2B` for the `i32` counter `curr_field` of the scan
+    (`FastLoop.CounterFits`, `cutStrFastLaneLoop_overflow`), which the repair does not touch.
 * NO hypothesis on the regex bag at program level: `compileBag_ok` (`Tuc.Props.MainLevel`) — the bag
   `main` stores is the `\b|\B` bag of `-c` or `Re.bag r`, both honour the contract of `find_iter`
   (`RegexBag.OK`).  Engine by engine the contract is the explicit hypothesis `BagOK opt`; it cannot be
@@ -662,10 +662,10 @@ theorem readAndCutLinesWhole2_eq (align : Bytes → Nat) (opt : Opt) (segs : Lis
 
 /-! ## 3b. `cut_bytes` with the machine-integer `try_into_range` -/
 
-/-- one call of the closure of cut_bytes.rs:13-33: with fewer than 2³¹ bytes of input the
-    machine-integer `try_into_range` is the model's -/
-theorem cutBytesBody2_eq (data : Bytes) (opt : Opt) (bof : BoF)
-    (hb : ∀ b, bof = .bound b → BoundOk b) (hn : data.length < 2147483648) :
+/-- one call of the closure of cut_bytes.rs:13-33: the machine-integer `try_into_range` is the model's
+    (since its repair — `i64` arithmetic — for every input shorter than 2⁶³ bytes: every `Vec`) -/
+theorem cutBytesBody2_eq_i64 (data : Bytes) (opt : Opt) (bof : BoF)
+    (hb : ∀ b, bof = .bound b → BoundOk b) (hn : data.length < 9223372036854775808) :
     cutBytesBody2 data opt bof = ReadLoops.cutBytesBody data opt bof := by
   cases bof with
   | filler f => rfl
@@ -673,10 +673,16 @@ theorem cutBytesBody2_eq (data : Bytes) (opt : Opt) (bof : BoF)
     obtain ⟨hl, hr, h0⟩ := hb b rfl
     unfold cutBytesBody2 ReadLoops.cutBytesBody
     simp only []
-    rw [BoundsLit.tryIntoRange_model b data.length hl hr hn h0]
+    rw [BoundsLit.tryIntoRange_model_i64 b data.length hl hr hn h0]
     cases b.tryIntoRange data.length with
     | none => rfl
     | some r => rfl
+
+/-- the statement of before the repair (fewer than 2³¹ bytes of input) -/
+theorem cutBytesBody2_eq (data : Bytes) (opt : Opt) (bof : BoF)
+    (hb : ∀ b, bof = .bound b → BoundOk b) (hn : data.length < 2147483648) :
+    cutBytesBody2 data opt bof = ReadLoops.cutBytesBody data opt bof :=
+  cutBytesBody2_eq_i64 data opt bof hb (by omega)
 
 theorem tryForEach_congr (f g : BoF → Run) : ∀ (l : List BoF), (∀ x ∈ l, f x = g x) →
     ReadLoops.tryForEach f l = ReadLoops.tryForEach g l
@@ -685,19 +691,31 @@ theorem tryForEach_congr (f g : BoF → Run) : ∀ (l : List BoF), (∀ x ∈ l,
     simp only [ReadLoops.tryForEach, h x List.mem_cons_self,
       tryForEach_congr f g t (fun y hy => h y (List.mem_cons_of_mem _ hy))]
 
-theorem cutBytesLit2_eq (data : Bytes) (opt : Opt) (hb : BoundsOk opt.bounds.list)
-    (hn : data.length < 2147483648) :
+theorem cutBytesLit2_eq_i64 (data : Bytes) (opt : Opt) (hb : BoundsOk opt.bounds.list)
+    (hn : data.length < 9223372036854775808) :
     cutBytesLit2 data opt = ReadLoops.cutBytesLit data opt := by
   unfold cutBytesLit2 ReadLoops.cutBytesLit
-  rw [tryForEach_congr _ _ _ (fun x hx => cutBytesBody2_eq data opt x (fun b hbx => hb b (hbx ▸ hx)) hn)]
+  rw [tryForEach_congr _ _ _ (fun x hx => cutBytesBody2_eq_i64 data opt x (fun b hbx => hb b (hbx ▸ hx)) hn)]
+
+theorem cutBytesLit2_eq (data : Bytes) (opt : Opt) (hb : BoundsOk opt.bounds.list)
+    (hn : data.length < 2147483648) :
+    cutBytesLit2 data opt = ReadLoops.cutBytesLit data opt :=
+  cutBytesLit2_eq_i64 data opt hb (by omega)
 
 /-- **`-b`**: `read_and_cut_bytes` with the machine-integer `try_into_range`, on an input shorter
-    than 2³¹ bytes -/
-theorem readAndCutBytesLoop2_eq (opt : Opt) (segs : List Bytes) (hb : BoundsOk opt.bounds.list)
-    (hsegs : ∀ s ∈ segs, s ≠ []) (hn : segs.flatten.length < 2147483648) :
+    than 2⁶³ bytes (every input that fits the `Vec` it is read into) -/
+theorem readAndCutBytesLoop2_eq_i64 (opt : Opt) (segs : List Bytes) (hb : BoundsOk opt.bounds.list)
+    (hsegs : ∀ s ∈ segs, s ≠ []) (hn : segs.flatten.length < 9223372036854775808) :
     readAndCutBytesLoop2 opt segs = ReadLoops.readAndCutBytesLoop opt segs := by
   unfold readAndCutBytesLoop2 ReadLoops.readAndCutBytesLoop
-  simp only [ReadLoops.readBytesToEndLit_eq segs [] hsegs, cutBytesLit2_eq _ opt hb hn]
+  simp only [ReadLoops.readBytesToEndLit_eq segs [] hsegs, cutBytesLit2_eq_i64 _ opt hb hn]
+
+/-- the statement of before the repair of `try_into_range` (an input shorter than 2³¹ bytes), kept
+    for `inputFits2B` -/
+theorem readAndCutBytesLoop2_eq (opt : Opt) (segs : List Bytes) (hb : BoundsOk opt.bounds.list)
+    (hsegs : ∀ s ∈ segs, s ≠ []) (hn : segs.flatten.length < 2147483648) :
+    readAndCutBytesLoop2 opt segs = ReadLoops.readAndCutBytesLoop opt segs :=
+  readAndCutBytesLoop2_eq_i64 opt segs hb hsegs (by omega)
 
 /-! ## 3c. the fast lane with the machine-integer `try_into_range` -/
 
@@ -731,9 +749,10 @@ theorem outputOf2_eq (line : Bytes) (b : UserBounds) (fields : List Nat) (opt : 
   | none => rfl
   | some p => rfl
 
-/-- `output_parts` (fast_lane.rs:94-126) -/
-theorem outputPartsLit2_eq (line : Bytes) (b : UserBounds) (fields : List Nat) (opt : FastOpt)
-    (hb : BoundOk b) (hn : fields.length - 1 < 2147483648) :
+/-- `output_parts` (fast_lane.rs:94-126): any number of parts below 2⁶³ since the repair of
+    `try_into_range` -/
+theorem outputPartsLit2_eq_i64 (line : Bytes) (b : UserBounds) (fields : List Nat) (opt : FastOpt)
+    (hb : BoundOk b) (hn : fields.length - 1 < 9223372036854775808) :
     outputPartsLit2 line b fields opt = FastLoop.outputPartsLit line b fields opt := by
   obtain ⟨hl, hr, h0⟩ := hb
   unfold outputPartsLit2 FastLoop.outputPartsLit
@@ -741,7 +760,7 @@ theorem outputPartsLit2_eq (line : Bytes) (b : UserBounds) (fields : List Nat) (
   by_cases h1 : 1 ≤ fields.length
   · rw [if_pos h1]
     simp only [FastLoop.orPanic]
-    rw [BoundsLit.tryIntoRange_model b _ hl hr hn h0, outputOf2_eq]
+    rw [BoundsLit.tryIntoRange_model_i64 b _ hl hr hn h0, outputOf2_eq]
     generalize FastLoop.outputOf line b fields opt _ = o
     cases o with
     | ok a => cases a <;> rfl
@@ -749,6 +768,12 @@ theorem outputPartsLit2_eq (line : Bytes) (b : UserBounds) (fields : List Nat) (
     | hang => rfl
   · rw [if_neg h1]
     rfl
+
+/-- the statement of before the repair (fewer than 2³¹ parts) -/
+theorem outputPartsLit2_eq (line : Bytes) (b : UserBounds) (fields : List Nat) (opt : FastOpt)
+    (hb : BoundOk b) (hn : fields.length - 1 < 2147483648) :
+    outputPartsLit2 line b fields opt = FastLoop.outputPartsLit line b fields opt :=
+  outputPartsLit2_eq_i64 line b fields opt hb (by omega)
 
 theorem fastTryForEach2_eq (buffer : Bytes) (fields : List Nat) (opt : FastOpt)
     (hn : fields.length - 1 < 2147483648) : ∀ (l : List BoF), BoundsOk l →
@@ -1441,32 +1466,24 @@ def differ (argv : List String) (reads : List String) (lit model : MainResult) :
 
 /-! ## 8. the new hypotheses cannot be dropped
 
-### `inputFits2B`, `-b`: an input of 2³¹ bytes or more
+### `inputFits2B`, `-b`: an input of 2³¹ bytes or more — NO LONGER a witness
 
-`cut_bytes` (cut_bytes.rs:15) calls `b.try_into_range(data.len())`, and `try_into_range` starts with
-`parts_length as i32` (userbounds.rs:221).  The normal-form `UserBounds.tryIntoRange` inside
-`ReadLoops.cutBytesBody` does not truncate, so `tucProgramLit` (and `tucMain`) print the input; the
-machine-integer transcription says what the Rust code does: with `2³¹ ≤ len mod 2³²` every bound is
-"Out of bounds" (exit 1, nothing printed); with `len = 2³² + k` the ranges are those of a `k`-byte input
-(`BoundsLit.tryIntoRange_mod`: the output is silently cut short).  REACHABLE: `tuc -b 1: < file` with a
-file of 2 GiB or more (`read_and_cut_bytes` reads the whole input in memory first). -/
+`cut_bytes` (cut_bytes.rs:15) calls `b.try_into_range(data.len())`.  Until its repair `try_into_range`
+started with `parts_length as i32` (userbounds.rs:221): with `2³¹ ≤ len mod 2³²` every bound was "Out of
+bounds" (exit 1, nothing printed), with `len = 2³² + k` the ranges were those of a `k`-byte input — the
+GENUINE DEFECT this section witnessed (`readAndCutBytesLoop2_length_necessary`,
+`tucProgramLit2_bytes_length_necessary`, `tucProgramLit2_ne_tucMain_on_2GiB_input`: `tuc -b 1:` on 2 GiB;
+commit history).  The repaired text computes in `i64` (`BoundsLit.tryIntoRange_eq_i64`): those
+statements are FALSE now, and in their place stands the positive fact — on that very input the program
+made of the Rust statements prints the input, as `tucProgramLit` and `tucMain` do
+(`tucProgramLit2_eq_tucMain_on_2GiB_input`); `readAndCutBytesLoop2_eq_i64`: for every option record and
+every input shorter than 2⁶³ bytes.  The `-b` clause of `inputFits2B` is therefore only SUFFICIENT. -/
 
 open CutStrLitProps (oneOpen) in
 /-- the `Opt` that `parse_args` builds for `tuc -b 1:` -/
 def optB1 : Opt :=
   { delimiter := [], boundsType := .bytes,
     bounds := { list := [.bound oneOpen], lastInteresting := .cont } }
-
-/-- one call of the closure of `cut_bytes` on a bound that the machine-integer `try_into_range`
-    refuses (stated for a variable bound: see the proof engineering note of `Tuc.Props.CutStrLit`) -/
-theorem cutBytesBody2_of_fail (data : Bytes) (opt : Opt) (b : UserBounds)
-    (hr : (BoundsLit.boundsOfModel b).tryIntoRange data.length = .fail)
-    (hfb : b.fallback = Option.none) (hg : opt.fallbackOob = Option.none) :
-    cutBytesBody2 data opt (.bound b) = Run.fail := by
-  unfold cutBytesBody2
-  simp only []
-  rw [hr]
-  simp only [hfb, hg]
 
 theorem cutBytesBody_of_whole (data : Bytes) (opt : Opt) (b : UserBounds)
     (hr : b.tryIntoRange data.length = Option.some (0, data.length)) :
@@ -1478,33 +1495,28 @@ theorem cutBytesBody_of_whole (data : Bytes) (opt : Opt) (b : UserBounds)
     List.take_length]
   simp [Run.seq, Run.ok, Run.empty]
 
+theorem boundsOk_optB1 : BoundsOk optB1.bounds.list := by
+  intro b hb
+  have : BoF.bound b = BoF.bound CutStrLitProps.oneOpen := by simpa [optB1] using hb
+  cases this
+  exact CutStrLitProps.boundOk_oneOpen
+
 open CutStrLitProps (oneOpen) in
-/-- **`-b 1:` on an input of `2³¹ ≤ len mod 2³²` bytes**: the engine made of the Rust statements with
-    the machine-integer `try_into_range` returns `Err` ("Out of bounds: 1") and prints nothing, the
-    engine of `Tuc.Model.WholeLit` (hence `tucMain`) prints the input -/
-theorem readAndCutBytesLoop2_length_necessary (data : Bytes)
-    (h : 2147483648 ≤ data.length % 4294967296) :
-    readAndCutBytesLoop2 optB1 [data] = Run.fail ∧
+/-- **`-b 1:` on ANY non-empty input** (one read; shorter than 2⁶³ bytes, as every `Vec` is) — 2³¹ bytes
+    and more included: the engine made of the Rust statements with the machine-integer `try_into_range`
+    prints the input, as the engine of `Tuc.Model.WholeLit` (hence `tucMain`) does -/
+theorem readAndCutBytesLoop2_on_large (data : Bytes) (hne : data ≠ [])
+    (h : data.length < 9223372036854775808) :
+    readAndCutBytesLoop2 optB1 [data] = Run.ok data ∧
       ReadLoops.readAndCutBytesLoop optB1 [data] = Run.ok data := by
-  have hne : data ≠ [] := by
-    intro e; subst e; simp at h
   have hpos : 0 < data.length := List.length_pos_iff.mpr hne
   have hsegs : ∀ s ∈ [data], s ≠ [] := by
     intro s hs; rw [List.mem_singleton] at hs; subst hs; exact hne
   have hf : [data].flatten = data := by simp
   have hemp : data.isEmpty = false := by cases data with | nil => exact absurd rfl hne | cons _ _ => rfl
   have hl : optB1.bounds.list = [.bound oneOpen] := rfl
-  constructor
-  · unfold readAndCutBytesLoop2
-    simp only [ReadLoops.readBytesToEndLit_eq [data] [] hsegs, hf]
-    unfold cutBytesLit2
-    rw [hemp, hl]
-    simp only [Bool.false_eq_true, if_false, ReadLoops.tryForEach]
-    have hb : cutBytesBody2 data optB1 (.bound oneOpen) = Run.fail :=
-      cutBytesBody2_of_fail data optB1 oneOpen (CutStrLitProps.resolve_oneOpen_fail data.length h) rfl rfl
-    rw [hb]
-    rfl
-  · unfold ReadLoops.readAndCutBytesLoop
+  have h2 : ReadLoops.readAndCutBytesLoop optB1 [data] = Run.ok data := by
+    unfold ReadLoops.readAndCutBytesLoop
     simp only [ReadLoops.readBytesToEndLit_eq [data] [] hsegs, hf]
     unfold ReadLoops.cutBytesLit
     rw [hemp, hl]
@@ -1513,18 +1525,16 @@ theorem readAndCutBytesLoop2_length_necessary (data : Bytes)
       cutBytesBody_of_whole data optB1 oneOpen (CutStrLitProps.tryIntoRange_oneOpen data.length hpos)
     rw [hb]
     simp [Run.seq, Run.ok, Run.empty]
+  exact ⟨by rw [readAndCutBytesLoop2_eq_i64 optB1 [data] boundsOk_optB1 hsegs (by rw [hf]; exact h), h2], h2⟩
 
-/-- `tuc -b 1:` on ONE read `data` with `2³¹ ≤ len mod 2³²`: `InDomain` holds, the program with the
-    machine-integer `try_into_range` ends with exit status 1 and prints nothing, `tucProgramLit`
-    prints `data` -/
-theorem tucProgramLit2_bytes_length_necessary (align : Bytes → Nat) (data : Bytes)
-    (h : 2147483648 ≤ data.length % 4294967296) :
+/-- `tuc -b 1:` on ONE read `data`, non-empty, of any length below 2⁶³: `InDomain` holds, and the program
+    with the machine-integer `try_into_range` prints `data`, as `tucProgramLit` does -/
+theorem tucProgramLit2_bytes_on_large (align : Bytes → Nat) (data : Bytes) (hne : data ≠ [])
+    (h : data.length < 9223372036854775808) :
     InDomain yes [['-', 'b'], ['1', ':']] [data] ∧
-      tucProgramLit2 align yes [['-', 'b'], ['1', ':']] [data] = .run Run.fail ∧
+      tucProgramLit2 align yes [['-', 'b'], ['1', ':']] [data] = .run (Run.ok data) ∧
       WholeLit.tucProgramLit yes [['-', 'b'], ['1', ':']] [data] = .run (Run.ok data) := by
-  have hne : data ≠ [] := by
-    intro e; subst e; simp at h
-  obtain ⟨h1, h2⟩ := readAndCutBytesLoop2_length_necessary data h
+  obtain ⟨h1, h2⟩ := readAndCutBytesLoop2_on_large data hne h
   have hp : parseArgv yes [['-', 'b'], ['1', ':']] = .run optB1 false Option.none := by rfl
   have hc : compileBag optB1 Option.none = Option.some Option.none := by rfl
   have hbt : (optB1.boundsType = .characters && !validUtf8 [data].flatten) = false := by
@@ -1557,93 +1567,38 @@ theorem tucProgramLit2_bytes_length_necessary (align : Bytes → Nat) (data : By
     rw [hd, h2]
     rfl
 
-/-- **the domain of `tucProgramLit2_eq` cannot be enlarged to `WholeLit.InDomain`**: `tuc -b 1:` on
-    an input of 2³¹ bytes (one read).  The program with the machine-integer `try_into_range` ends with
-    exit status 1 and prints nothing; `tucProgramLit` — `InDomain` holds: `-b` asks nothing of the
-    input there — and `tucMain` print the 2³¹ bytes. -/
-theorem tucProgramLit2_ne_tucMain_on_2GiB_input (align : Bytes → Nat) :
+/-- **on the input that witnessed the defect — `tuc -b 1:` on 2³¹ bytes (one read) — the program made of
+    the Rust statements now prints the 2³¹ bytes**, as `tucProgramLit` and `tucMain` do (until the repair
+    of `try_into_range`: exit status 1, "Out of bounds: 1", nothing printed).  This input is OUTSIDE
+    `InDomain2` (its `-b` clause asks fewer than 2³¹ bytes): the clause is no longer necessary. -/
+theorem tucProgramLit2_eq_tucMain_on_2GiB_input (align : Bytes → Nat) :
     ∃ data : Bytes, data.length = 2147483648 ∧
       InDomain yes [['-', 'b'], ['1', ':']] [data] ∧
-      tucProgramLit2 align yes [['-', 'b'], ['1', ':']] [data] = .run Run.fail ∧
+      tucProgramLit2 align yes [['-', 'b'], ['1', ':']] [data] = .run (Run.ok data) ∧
       tucMain yes [['-', 'b'], ['1', ':']] [data] = .run (Run.ok data) := by
-  obtain ⟨hdom, h1, h2⟩ := tucProgramLit2_bytes_length_necessary align (List.replicate 2147483648 0)
-    (by rw [List.length_replicate]; decide)
+  obtain ⟨hdom, h1, h2⟩ := tucProgramLit2_bytes_on_large align (List.replicate 2147483648 0)
+    (by intro e; have := congrArg List.length e
+        rw [List.length_replicate, List.length_nil] at this; omega)
+    (by rw [List.length_replicate]; omega)
   exact ⟨_, List.length_replicate, hdom, h1, by rw [← WholeLit.tucProgramLit_eq yes _ _ hdom, h2]⟩
 
-/-! ### `inputFits2B`, fast lane: 2³¹ parts or more in one record
+/-! ### `inputFits2B`, fast lane: 2³¹ parts or more in one record — NO LONGER a witness
 
-`output_parts` (fast_lane.rs:103) calls `b.try_into_range(fields.len() - 1)`.  One call with a vector
-`fields` of `2³¹ + 1` entries or more (a record with 2³¹ − 1 delimiter bytes scanned to its end — the
-counter `curr_field` still fits, `CounterFits` holds): the machine-integer transcription returns `Err`
-("Out of bounds: 1") for the bound `1:`, the transcription of `Tuc.Model.FastLoop` does not.
-Reachable with a record of 2 GiB; the same cast as above. -/
-
-/-- `output_parts` on a bound that the machine-integer `try_into_range` refuses (variable bound) -/
-theorem outputPartsLit2_of_fail (line : Bytes) (b : UserBounds) (fields : List Nat) (opt : FastOpt)
-    (h1 : 1 ≤ fields.length)
-    (hr : (BoundsLit.boundsOfModel b).tryIntoRange (fields.length - 1) = .fail)
-    (hfb : b.fallback = Option.none) (hg : opt.fallbackOob = Option.none) :
-    outputPartsLit2 line b fields opt = Run.fail := by
-  unfold outputPartsLit2 checkedSub
-  rw [if_pos h1]
-  simp only [FastLoop.orPanic]
-  rw [hr]
-  have ho : outputOf2 line b fields opt Res.fail = .ok Option.none := by
-    unfold outputOf2
-    simp only []
-    rw [hfb, hg]
-  rw [ho]
-
-/-- `output_parts` of `Tuc.Model.FastLoop` on a bound that resolves never returns `Err` -/
-theorem outputPartsLit_of_some (line : Bytes) (b : UserBounds) (fields : List Nat) (opt : FastOpt)
-    (h1 : 1 ≤ fields.length) (r : Nat × Nat)
-    (hr : b.tryIntoRange (fields.length - 1) = Option.some r) :
-    FastLoop.outputPartsLit line b fields opt ≠ Run.fail := by
-  unfold FastLoop.outputPartsLit checkedSub
-  rw [if_pos h1]
-  simp only [FastLoop.orPanic]
-  rw [hr]
-  unfold FastLoop.outputOf
-  simp only []
-  cases FastLoop.index fields r.1 with
-  | panic => simp [Outcome.bind, Run.panic, Run.fail]
-  | hang => simp [Outcome.bind, Run.hang, Run.fail]
-  | ok a =>
-    simp only [Outcome.bind]
-    cases FastLoop.index fields r.2 with
-    | panic => simp [Run.panic, Run.fail]
-    | hang => simp [Run.hang, Run.fail]
-    | ok b' =>
-      simp only []
-      cases checkedSub b' 1 with
-      | panic => simp [Run.panic, Run.fail]
-      | hang => simp [Run.hang, Run.fail]
-      | ok c =>
-        simp only []
-        cases sliceRange line a c with
-        | panic => simp [Run.panic, Run.fail]
-        | hang => simp [Run.hang, Run.fail]
-        | ok part =>
-          simp only []
-          intro he
-          have := congrArg Run.status he
-          simp only [Run.seq, Run.ok, Run.fail] at this
-          split at this <;> cases this
+`output_parts` (fast_lane.rs:103) calls `b.try_into_range(fields.len() - 1)`.  Until the repair of
+`try_into_range`, one call with a vector `fields` of `2³¹ + 1` entries or more (a record with 2³¹ − 1
+delimiter bytes scanned to its end — the counter `curr_field` still fits, `CounterFits` holds) returned
+`Err` ("Out of bounds: 1") for the bound `1:` where `Tuc.Model.FastLoop` does not
+(`outputPartsLit2_length_necessary`, commit history).  False now: `outputPartsLit2_eq_i64` — the two agree
+for every bound the parser builds and every number of parts below 2⁶³.  What `PartsFit` still protects
+is the `i32` counter `curr_field` of the scan (fast_lane.rs:44, 52: `FastLoop.CounterFits`,
+`cutStrFastLaneLoop_overflow`), which the repair does not touch. -/
 
 open CutStrLitProps (oneOpen) in
-theorem outputPartsLit2_length_necessary (line : Bytes) (fields : List Nat) (opt : FastOpt)
-    (hfb : opt.fallbackOob = Option.none) (h1 : 1 ≤ fields.length)
-    (h : 2147483648 ≤ (fields.length - 1) % 4294967296) :
-    outputPartsLit2 line oneOpen fields opt = Run.fail ∧
-      FastLoop.outputPartsLit line oneOpen fields opt ≠ Run.fail := by
-  have hpos : 0 < fields.length - 1 := by
-    cases hz : fields.length - 1 with
-    | zero => rw [hz] at h; simp at h
-    | succ n => exact Nat.succ_pos n
-  exact ⟨outputPartsLit2_of_fail line oneOpen fields opt h1
-      (CutStrLitProps.resolve_oneOpen_fail (fields.length - 1) h) rfl hfb,
-    outputPartsLit_of_some line oneOpen fields opt h1 _
-      (CutStrLitProps.tryIntoRange_oneOpen _ hpos)⟩
+/-- one call of `output_parts` on `1:` with 2³¹ + 1 entries in `fields` and more: equal -/
+theorem outputPartsLit2_eq_on_large (line : Bytes) (fields : List Nat) (opt : FastOpt)
+    (h : fields.length - 1 < 9223372036854775808) :
+    outputPartsLit2 line oneOpen fields opt = FastLoop.outputPartsLit line oneOpen fields opt :=
+  outputPartsLit2_eq_i64 line oneOpen fields opt CutStrLitProps.boundOk_oneOpen h
 
 /-! ### the contract of `find_iter` (`BagOK`), for `cut_str` taken alone
 
